@@ -29,6 +29,8 @@
 //          to the pipe makes it map a page (rw, filled with 0x77) right behind pattern region 0 (which has to be of
 //          kind u) and wait again: the target changes its address space between two requests
 //   -f HEX keep a file open whose path is the hex-decoded bytes (created if missing): names that are not UTF-8
+//   -E K   the name of linker-list entry K lives at the very end of readable memory (its terminating NUL is the last
+//          byte of a page that is followed by a hole): a fixed-size read of the name comes back short
 //   -L     place the shared page (register tables, counters) at the fixed low address 0x200000, below the executable
 //   -g     install a counting handler for SIGRTMIN+1 (per-thread counters in the shared page)
 //
@@ -141,6 +143,7 @@ static int forced_rel[MAXT];
 static int forced_mod[MAXT];
 static int vfork_ms = 0, leader_exits = 0;
 static int want_mapper = 0;
+static int name_at_edge = -1;
 static int is_mapper[MAXT];
 static uint64_t mapper_at = 0;
 static int is_slow[MAXT];
@@ -243,7 +246,7 @@ int main(int argc, char **argv) {
   memset(sh, 0, sizeof *sh);
 
   int c;
-  while ((c = getopt(argc, argv, "t:s:n:o:S:r:m:M:F:d:gw:D:ZV:LGf:")) != -1) {
+  while ((c = getopt(argc, argv, "t:s:n:o:S:r:m:M:F:d:gw:D:ZV:LGf:E:")) != -1) {
     switch (c) {
       case 't': nblock = atoi(optarg); break;
       case 's': nspin = atoi(optarg); break;
@@ -389,6 +392,7 @@ int main(int argc, char **argv) {
       case 'Z': leader_exits = 1; break;
       case 'L': break;
       case 'G': want_mapper = 1; break;
+      case 'E': name_at_edge = atoi(optarg); break;
       case 'V': vfork_ms = atoi(optarg); break;
       default: return 2;
     }
@@ -449,6 +453,15 @@ int main(int argc, char **argv) {
       if (i > 0 && i < 64 && dname_len[i] >= 0) { memset(lnames[i], 0, 64); memcpy(lnames[i], dname[i], dname_len[i]); }
       lms[i].l_addr = 0x10000000ull * (i + 1);
       lms[i].l_name = i == 0 ? NULL : lnames[i];
+      if (i > 0 && i == name_at_edge) {
+        uint8_t *pg = mmap(NULL, 2 * page, PROT_READ | PROT_WRITE, MAP_PRIVATE | MAP_ANONYMOUS, -1, 0);
+        if (pg != MAP_FAILED) {
+          munmap(pg + page, page);
+          size_t n = strlen(lnames[i]) + 1;
+          memcpy(pg + page - n, lnames[i], n);
+          lms[i].l_name = (char *)(pg + page - n);
+        }
+      }
       lms[i].l_ld = (ElfW(Dyn) *)(uintptr_t)(0x20000000ull * (i + 1) + 0x100);
       lms[i].l_next = (i + 1 < ndso) ? &lms[i + 1] : NULL;
       lms[i].l_prev = i ? &lms[i - 1] : NULL;
